@@ -100,6 +100,7 @@ PROPS['C12'] = {
     'technique': PROPS['C03']['technique'] + '; relational (2-safety) check over the cube table',
 }
 PROPS['C01'] = {
+    'disabled': True,
     'level': 'model_checking',
     'pkgs': ALLV,
     'text': 'bounded model checking of the real ParseVector against a reference recogniser written from the grammar: for every byte string up to the stated length, accept <=> grammar accepts, (object, error) nil-ness, and no panic / out-of-range index / failed type assertion on any path',
